@@ -22,5 +22,5 @@ MenuC04(s) ==
     \cup {One("MAC", PMac(u)) : u \in us}
     \cup {One("Get", PGetWrap(u, k)) : u \in us, k \in us}
 
-CheckedC04 == {"C04_moves", "C04_initial", "C04_use", "C04_destroy", "C08_failclean", "C08_frame", "C07_fresh", "C13_item"}
+CheckedC04 == {"C04_moves", "C04_initial", "C04_use", "C04_destroy", "C04_compromise", "C08_failclean", "C08_frame", "C07_fresh", "C13_item"}
 =============================================================================
